@@ -42,9 +42,16 @@ func c09Plan(c c09Cell, followup string, lat []time.Duration, h time.Duration, o
 	var startS time.Duration = 1
 	switch c.Role {
 	case "leader":
-	case "follower", "candidate", "successor":
+	case "follower", "candidate", "successor", "successor-takeover":
 		// another instance leads already
 		startS = odd(2 * h)
+	}
+	if c.Role == "successor-takeover" {
+		// S may preempt lower priorities: o0 (the first leader) outranks it, o1.. do not. When o0 hands the key
+		// over, S and o1 race for it; a Create of S that loses is followed by the takeover's Get and Update -
+		// in an acquisition round no Start and no stop call is waiting for
+		s.Priority, s.Takeover = 20, true
+		others = max(others, 2)
 	}
 	if c.Phase == "log" {
 		// the stop is issued from inside the library's own log call c.Op (n-th occurrence), i.e. between the
@@ -69,14 +76,21 @@ func c09Plan(c c09Cell, followup string, lat []time.Duration, h time.Duration, o
 	p.Instances = []Inst{s}
 	p.Timeline = append(p.Timeline, Action{At: startS, Kind: ActStart, Inst: 0})
 	for i := 0; i < others; i++ {
-		p.Instances = append(p.Instances, Inst{ID: fmt.Sprintf("o%d", i), Group: "g", Lat: []time.Duration{1 + time.Duration(i), 3}})
+		o := Inst{ID: fmt.Sprintf("o%d", i), Group: "g", Lat: []time.Duration{1 + time.Duration(i), 3}}
+		if c.Role == "successor-takeover" {
+			o.Priority = 10
+			if i == 0 {
+				o.Priority = 30
+			}
+		}
+		p.Instances = append(p.Instances, o)
 		at := time.Duration(3 + 2*i)
 		if c.Role == "leader" {
 			at = odd(h/2 + time.Duration(i))
 		}
 		p.Timeline = append(p.Timeline, Action{At: at, Kind: ActStart, Inst: i + 1})
 	}
-	if c.Role == "successor" {
+	if c.Role == "successor" || c.Role == "successor-takeover" {
 		// ... and hands the key over later: S acquires it through a watch event or the periodic check, on a
 		// goroutine that no Start is waiting for
 		p.Timeline = append(p.Timeline, Action{At: odd(4 * h), Kind: ActStopCtx, Inst: 1, DeleteKey: true})
@@ -129,6 +143,19 @@ func c09Grid() []c09Cell {
 			}
 		}
 	}
+	// a takeover-enabled follower that races for the key after the leader's graceful shutdown
+	for _, op := range []string{OpCreate, OpGet, OpUpdate} {
+		for nth := 0; nth < 4; nth++ {
+			if (op == OpCreate && nth == 0) || (op == OpUpdate && nth > 1) {
+				continue
+			}
+			for _, ph := range []string{"issued", "applied", "returning"} {
+				for vi := range c09Variants {
+					out = append(out, c09Cell{"successor-takeover", op, nth, ph, vi, 0, "ok"})
+				}
+			}
+		}
+	}
 	// stops at the library's log lines
 	logs := map[string][]string{
 		"candidate": {"election_started", "acquire_success", "acquire_failed", "state_transition", "leader_promoted"},
@@ -153,7 +180,7 @@ func c09Grid() []c09Cell {
 func TestC09(t *testing.T) {
 	grid := c09Grid()
 	RunCheck(t, CheckSpec{Prop: "C09",
-		Rule:        fmt.Sprintf("stop-point grid: role {candidate in its first Create, follower, leader, successor = follower that acquires the key after the leader's graceful shutdown (log-line stops only)} x operation {Create, heartbeat Update, validation/periodic Get, Watch set-up} x n-th such operation (0..2) x phase {just issued, applied-not-answered, about to return, timer boundary (1ns before / at / 1ns after a heartbeat or periodic-check timer), inside one of the library's own log calls (22 messages: the stop runs between the two steps around that line)} x %d stop variants (Stop; StopWithContext x DeleteKey x WaitForDemote x Timeout {0, 50ms, 6s} x ctx {background, deadline, cancelled mid-call}) x OnDemote duration {0, 50ms, 2s} x outcome {answered, request time-out} = %d cells, each combined with a follow-up {none, stop again, StopWithContext then Stop, concurrent double stop, stop-then-Start, stop-then-new-object}; thorough enumerates every cell (sharded) and adds generated latencies/companions; quick runs a seeded sample with generated latencies. Oracle after each stop call that returned nil: no claim-up edge, IsLeader()==false at every later snapshot, no OnPromote, no store operation issued (until a later Start), bounded duration of the call, with DeleteKey by the owner no own version live at return; process-level: no panic, no deadlock, no library goroutine left after teardown. Non-trivial = a stop that began while a store operation of that object was in flight; distinct by plan hash.", len(c09Variants), len(grid)),
+		Rule:        fmt.Sprintf("stop-point grid: role {candidate in its first Create, follower, leader, successor = follower that acquires the key after the leader's graceful shutdown (log-line stops only), successor-takeover = takeover-enabled follower racing a lower-priority one for the key after the graceful shutdown of a leader that outranked both} x operation {Create, heartbeat Update, validation/periodic Get, Watch set-up} x n-th such operation (0..2) x phase {just issued, applied-not-answered, about to return, timer boundary (1ns before / at / 1ns after a heartbeat or periodic-check timer), inside one of the library's own log calls (22 messages: the stop runs between the two steps around that line)} x %d stop variants (Stop; StopWithContext x DeleteKey x WaitForDemote x Timeout {0, 50ms, 6s} x ctx {background, deadline, cancelled mid-call}) x OnDemote duration {0, 50ms, 2s} x outcome {answered, request unanswered for 5s / 12s / beyond the run} x heartbeat interval {100ms, 300ms, 1s, 20s} = %d cells, each combined with a follow-up {none, stop again, StopWithContext then Stop, concurrent double stop, stop-then-Start, stop-then-new-object}; thorough enumerates every cell (sharded) and adds generated latencies/companions; quick runs a seeded sample with generated latencies. Oracle after each stop call that returned nil: no claim-up edge, IsLeader()==false at every later snapshot, no OnPromote, no store operation issued (until a later Start), bounded duration of the call, with DeleteKey by the owner no own version live at return; process-level: no panic, no deadlock, no library goroutine left after teardown. Non-trivial = a stop that began while a store operation of that object was in flight; distinct by plan hash.", len(c09Variants), len(grid)),
 		Assumptions: []string{"Start is never issued while a stop call on the same object has not returned (it is issued on objects whose stop call returned an error or gave up waiting: the WaitGroup reuse this used to trigger was repaired); StopWithContext is allowed 2 x effective time-out + one store round trip (wait for goroutines, Delete, wait for OnDemote)"},
 		Fixed: func() []*Plan {
 			var ps []*Plan
@@ -180,10 +207,16 @@ func TestC09(t *testing.T) {
 				}
 				c = ls[rapid.IntRange(0, len(ls)-1).Draw(t, "log_cell_i")]
 			}
-			h := rapid.SampledFrom([]time.Duration{100 * time.Millisecond, 300 * time.Millisecond, time.Second}).Draw(t, "H")
-			lat := genLatList(t, h/4, "lat")
+			h := rapid.SampledFrom([]time.Duration{100 * time.Millisecond, 300 * time.Millisecond, time.Second, 300 * time.Millisecond, time.Second, 20 * time.Second}).Draw(t, "H")
+			lat := genLatList(t, min(h/4, 250*time.Millisecond), "lat")
 			fu := rapid.SampledFrom(c09Followups).Draw(t, "followup")
-			return c09Plan(c, fu, lat, h, rapid.IntRange(0, 2).Draw(t, "others"))
+			p := c09Plan(c, fu, lat, h, rapid.IntRange(0, 2).Draw(t, "others"))
+			if c.Outcome == "hang" {
+				// how long the unanswered request stays unanswered: the default 5s (it returns just as Stop gives up
+				// waiting), somewhat longer, or beyond the end of the run
+				p.HangFor = rapid.SampledFrom([]time.Duration{0, 0, 12 * time.Second, 10 * time.Minute}).Draw(t, "hang_for")
+			}
+			return p
 		},
 		Oracle: OracleC09})
 }
